@@ -167,6 +167,15 @@ func RunRoundsCuts(cfg vrt.Config, corpus map[string]Response, rounds []Round, h
 				if rd.Pack == -1 {
 					cuts = explicit
 				}
+				if rd.Pack == 6 {
+					// slow server: the packets (cut inside the last package) arrive one by one, each
+					// only after everybody else has come to rest
+					for _, p := range Packets(r.Bytes(), CutsFor(r, 2)) {
+						pipe.PeerSend(p)
+						vrt.Settle()
+					}
+					continue
+				}
 				pipe.PeerSend(OneChunk(Packets(r.Bytes(), cuts))...)
 			}
 		})
